@@ -40,7 +40,7 @@ def report_replay_violations(ctx, rj, seed):
 def events_to_behaviour(rows):
     """A logged implementation trace as a replayable behaviour: the content after every call is that of a
     plain map model (what the trace spec validated before the first mismatch)."""
-    model, cmodel, out = {}, {}, []
+    model, cmodel, omodel, out = {}, {}, {}, []
     for e in rows:
         if e["op"] == "tracereset":
             continue
@@ -56,6 +56,10 @@ def events_to_behaviour(rows):
             cmodel = dict(model)
         elif e["op"] == "reload":
             model = dict(cmodel)
+        elif e["op"] == "copy":
+            omodel = dict(model)
+        elif e["op"] == "swap":
+            model, omodel = omodel, model
         c = sorted(([json.loads(kk), v] for kk, v in model.items()), key=lambda p: p[0])
         # expected results: from the model where it defines them, else as logged
         res = e["res"]
@@ -69,7 +73,8 @@ def events_to_behaviour(rows):
             res = ["stack", True]
         elif e["op"] == "hash":
             res = ["hash", c]
-        out.append({"op": e["op"], "k": e["k"], "v": e["v"], "k2": e["k2"], "i": e["i"], "kind": e["kind"], "res": res, "c": c})
+        out.append({"op": e["op"], "k": e["k"], "v": e["v"], "k2": e["k2"], "i": e["i"], "kind": e["kind"], "res": res, "c": c,
+                    "oc": e.get("oc") or [], "ho": bool(e.get("ho"))})
     return out
 
 
@@ -119,6 +124,21 @@ def run(ctx):
                 samples.append({"behaviour_from_TLC": json.loads(line)})
     vlib.log("replayed %d behaviours x %d flavours: %d calls, %d oracle checks, %d violations"
              % (nbeh, len(FLAVORS), calls, checks, len(rj.get("violations") or [])))
+
+    # 2b. two handles (Trie.Copy): every behaviour of the bounded copy/modify/commit model; the handle that is NOT being
+    # modified must stay the canonical trie of its own content (nodes are shared in memory between the handles)
+    behc = ctx.work / "behaviours-copy.ndjson"
+    erc, nbehc = emit_behaviours(ctx, "MCTrie_emitcopy.cfg" if quick else "MCTrie_emitcopy6.cfg", behc, 2400)
+    if nbehc < 1000:
+        raise Broken("TLC emitted only %d two-handle behaviours" % nbehc)
+    rjc = run_replay(ctx, drv, behc, ctx.work / "replay-copy.json", ctx.seed, 1, 0)
+    if rjc["behaviours"] != nbehc or not rjc["ops"].get("copy") or not rjc["ops"].get("swap"):
+        raise Broken("driver replayed %d of %d two-handle behaviours (ops %s)" % (rjc["behaviours"], nbehc, rjc["ops"]))
+    report_replay_violations(ctx, rjc, ctx.seed)
+    ccalls = sum(rjc["flavors"][fl]["Calls"] for fl in FLAVORS)
+    cov.update(two_handle_behaviours_replayed=nbehc, two_handle_calls=ccalls, two_handle_states=erc.distinct)
+    vlib.log("two handles: TLC %d distinct states, %d behaviours x %d flavours replayed (%d calls), %d violations"
+             % (erc.distinct, nbehc, len(FLAVORS), ccalls, len(rjc.get("violations") or [])))
 
     # 3. code -> spec: long seeded random call sequences, validated by TrieTrace.tla
     batches = [(12, 150)] if quick else [(36, 300)] * 4
